@@ -1,5 +1,8 @@
 //! desmon — runtime monitors for the simulator (`des`), one sub-command per property / level.
 
+mod c07;
+mod c08;
+mod c19;
 mod evprog;
 mod rtprops;
 
@@ -20,6 +23,9 @@ fn main() {
         let sub = case.get("sub").and_then(Value::as_str).unwrap_or("").to_string();
         let rc = match sub.as_str() {
             "c02" | "c03rt" | "c10" | "c11" => rtprops::replay(case),
+            "c07" => c07::replay(case),
+            "c08" => c08::replay(case),
+            "c19" => c19::replay(case),
             other => {
                 eprintln!("no replay for sub-command {other}");
                 2
@@ -32,6 +38,9 @@ fn main() {
         "c03rt" => rtprops::cmd_c03rt(&args),
         "c10" => rtprops::cmd_c10(&args),
         "c11" => rtprops::cmd_c11(&args),
+        "c07" => c07::cmd(&args),
+        "c08" => c08::cmd(&args),
+        "c19" => c19::cmd(&args),
         other => {
             eprintln!("unknown sub-command {other}");
             std::process::exit(2);
